@@ -30,6 +30,7 @@ type input struct {
 	Proxies [][2]string `json:"proxies,omitempty"` // env name, value
 	Chain   []string    `json:"chain,omitempty"`   // Location headers of successive 302 answers
 	Spell   string      `json:"spell,omitempty"`   // e2e: URL with %PORT% replaced by the local server's port
+	Phase   int         `json:"phase,omitempty"`   // resolver stub: 0 = check-time answers, 1 = dial-time answers
 }
 
 var proxyVars = []string{"HTTPS_PROXY", "https_proxy", "HTTP_PROXY", "http_proxy", "ALL_PROXY", "all_proxy"}
@@ -48,6 +49,7 @@ func init() {
 	clearProxyEnv()
 	rq, _ := http.NewRequest("GET", "http://192.0.2.1/", nil)
 	_, _ = http.ProxyFromEnvironment(rq)
+	startDNS()
 }
 
 // ---------------------------------------------------------------- printing
@@ -292,16 +294,26 @@ func runE2E(in input, c *hx.Case) {
 	_, port, _ := net.SplitHostPort(strings.TrimPrefix(s.URL, "http://"))
 	raw := strings.ReplaceAll(in.Spell, "%PORT%", port)
 	u, perr := url.Parse(raw)
-	ans := hx.None()
+	ans0, ans1, ans2 := hx.None(), hx.None(), hx.None()
 	if perr == nil {
+		setPhase(0)
 		ips, lerr := net.LookupIP(u.Hostname())
-		ans = ansTerm(ips, lerr)
+		ans0 = ansTerm(ips, lerr)
+		setPhase(1)
+		ips, lerr = net.LookupIP(u.Hostname())
+		ans1 = ansTerm(ips, lerr)
+		ips, lerr = net.LookupIP(u.Hostname()) // what one more resolution at dial time would return
+		ans2 = ansTerm(ips, lerr)
 	}
 	before := atomic.LoadInt64(&hits)
-	// what the handlers do: guard the configured URL, then use the guarded client
+	// what the handlers do: guard the configured URL (check-time answers), then use the
+	// guarded client (whose dialer resolves again: dial-time answers)
+	setPhase(0)
 	gerr := daisen2.VerifGuardLLMURL(raw)
+	setPhase(1)
 	var derr error
-	if gerr == nil {
+	if perr == nil && (u.Scheme == "http" || u.Scheme == "https") {
+		// also when the check refused: a redirect or a later call would drive the client the same way
 		ctx, cancel := context.WithTimeout(context.Background(), 1500*time.Millisecond)
 		req, rerr := http.NewRequestWithContext(ctx, "GET", raw, nil)
 		if rerr == nil {
@@ -315,21 +327,11 @@ func runE2E(in input, c *hx.Case) {
 		}
 		cancel()
 	}
-	// also drive the client directly, as a redirect or a later call would
-	if perr == nil && (u.Scheme == "http" || u.Scheme == "https") {
-		ctx, cancel := context.WithTimeout(context.Background(), 1500*time.Millisecond)
-		if req, rerr := http.NewRequestWithContext(ctx, "GET", raw, nil); rerr == nil && gerr != nil {
-			resp, _ := daisen2.VerifGuardedLLMClient().Do(req)
-			if resp != nil {
-				resp.Body.Close()
-			}
-		}
-		cancel()
-	}
+	setPhase(0)
 	daisen2.VerifGuardedLLMClient().CloseIdleConnections()
 	got := atomic.LoadInt64(&hits) - before
 	c.Obs = map[string]any{"allow": allow, "hits": got, "guard": fmt.Sprint(gerr), "do": fmt.Sprint(derr)}
-	c.Coq = hx.App("CEndToEnd", hx.B(allow), optPurl(u, perr), ans, hx.N(uint64(got)))
+	c.Coq = hx.App("CEndToEnd", hx.B(allow), optPurl(u, perr), ans0, ans1, ans2, hx.N(uint64(got)))
 	c.Tags = append(c.Tags, fmt.Sprintf("e2e:hits%d", got))
 	c.Nontrivial = true
 }
@@ -342,6 +344,8 @@ func run(raw json.RawMessage) (hx.Case, error) {
 	os.Setenv("DAISEN_ALLOW_PRIVATE_LLM_URL", in.Allow)
 	defer os.Unsetenv("DAISEN_ALLOW_PRIVATE_LLM_URL")
 	clearProxyEnv()
+	setPhase(in.Phase)
+	defer setPhase(0)
 	var c hx.Case
 	switch in.Kind {
 	case "classify":
